@@ -33,8 +33,12 @@ def select_items(rng, g):
             e = {"t": "path", "p": ["o", "f"]}
             if not any(it["al"] == "o.f" for it in items):
                 items.append({"al": "o.f", "e": e, "unaliased": 1})       # an un-aliased nested path is reported under its text
-        elif r < 0.72:
+        elif r < 0.71:
             items.append({"al": "l%d" % k, "e": strlit(rng.choice(["lit", "a b", "LIMIT"]))})
+        elif r < 0.75 and not g.f["nulls"]:
+            # a top-level searched CASE with numeric results (the layout layer spells its keywords in every case: "then 1 else 0")
+            e = {"t": "case", "whens": [{"c": {"t": "cmp", "op": rng.choice([">", "<", ">="]), "a": col(rng.choice(["x", "y"])), "b": num(rng.choice([0, 1, 2, 3]))}, "r": num(rng.choice([1, 2, 7]))}], "else": num(0)}
+            items.append({"al": "k%d" % k, "e": e})
         elif r < 0.78 and not g.f["nulls"]:
             # (column OP literal): evaluated by a compiled program that is cached per expression text - the result is a function of
             # THIS row only, whatever kinds of values earlier rows (of this or another statement of the process) carried
@@ -123,6 +127,13 @@ def run(tier):
         sc = mk(rng, g, False, None, rng.choice([30, 40]), "emit", True)
         sc["perf"] = {"strategy": "expand", "data": rng.choice([2, 4, 8]), "max": 400, "mininc": rng.choice([2, 4]), "growth": rng.choice([1.5, 2.0]), "slowsink": rng.choice([100, 300])}
         sc["meta"]["expand"] = 1
+        scen.append(sc)
+    # several goroutines call EmitSync at the same time (WHERE shapes that miss the comparison fast path): every result is that of its row
+    for i in range(40 if quick else 1500):
+        sc = mk(rng, g, i % 4 == 0, ["pred", "flat", "pred"][i % 3], rng.choice([8, 12, 16]), "sync", False)
+        sc.update(concsync=rng.choice([4, 8]), seed=rng.randrange(1 << 30), chan=False)
+        sc["meta"]["chan"] = 0
+        sc["meta"]["conc"] = 1
         scen.append(sc)
     # the lossless configuration: "block" without a timeout and a tiny input buffer in front of a slowed consumer - the producer waits,
     # every row arrives once and in order (also with a generous timeout)
